@@ -25,6 +25,7 @@
 #include <lwip/pbuf.h>
 #endif
 
+#include <limits.h>
 #include <stdint.h>
 
 /**
